@@ -567,7 +567,7 @@ theorem wf_sort (m : Mdoc) (h : WF m) : WF (sortByTilt false m) := by
   refine ⟨h.info, h.infoNodup, h.titles, h.sid, h.colKeys, h.colNodup, h.hasTilt, ?_⟩
   intro r hr
   have hp : (sortByTilt false m).rows.Perm m.rows := by
-    simp only [sortByTilt, sortRowsBy]
+    simp only [sortByTilt, sortRowsBy, Bool.false_and, Bool.false_eq_true, if_false]
     exact List.mergeSort_perm _ _
   exact h.rows r (hp.mem_iff.1 hr)
 
